@@ -142,6 +142,36 @@ def construct_faults(case, rng):
                 _fix_ms(g)
                 yield "rank-change-in-consumer", f"f{i}:{p}", c, {}
                 break
+    # three extra consumers of one array of rank >= 2: one reduces position k (':'), two name it - differently.
+    # The reducing one is declared first / in the middle / last (a check that compares with the first spec only, or
+    # lets ':' match anything transitively, misses some of these).
+    ax = mapgen.array_axes(case)
+    wide = [n for n, a in ax.items() if len(a) >= 2 and (n in case["roots"] or (_prod(case, n) or {}).get("mapspec"))]
+    if wide:
+        x = rng.choice(sorted(wide))
+        axes = list(ax[x])
+        k = rng.randrange(len(axes))
+
+        def consumer(name, m):
+            out_axes = [a for a in m if a is not None]
+            g = {"name": name, "params": [x], "outs": [f"{name}_o"], "mapspec": "x", "modes": {x: list(m)}, "out_axes": out_axes,
+                 "internal": [], "internal_shape": [], "ret_list": False, "ishape_via": None}
+            _fix_ms(g)
+            return g
+        # the reducing consumer is declared first / in the middle / last AND sorts first / in the middle / last by name
+        # (whatever order the implementation visits the specs in, some variant puts the reduction in front)
+        for npos, nm in (("name-first", ("za", "zb", "zc")), ("name-middle", ("zb", "za", "zc")), ("name-last", ("zc", "za", "zb"))):
+            red = consumer(nm[0], [None if j == k else a for j, a in enumerate(axes)])
+            same = consumer(nm[1], axes)
+            other = consumer(nm[2], ["q9" if j == k else a for j, a in enumerate(axes)])
+            for pos, order in (("first", [red, same, other]), ("middle", [same, red, other]), ("last", [same, other, red])):
+                c = copy.deepcopy(case)
+                # consumers of a root array may come before everything else; consumers of an output after its producer
+                if x in case["roots"]:
+                    c["funcs"] = copy.deepcopy(order) + c["funcs"]
+                else:
+                    c["funcs"] = c["funcs"] + copy.deepcopy(order)
+                yield "axis-name-conflict-beside-reduction", f"{x}[{k}]:reduction-{pos}/{npos}", c, {}
     # inconsistent defaults on a shared root parameter
     users = {}
     for f in fs:
@@ -168,6 +198,35 @@ def input_faults(case, inputs, rng):
         del d[r]
         yield "dropped-input", r, d, {}
     yield "added-input", "zz_extra", {**inputs, "zz_extra": "q"}, {}
+    # surplus relative to the part of the pipeline that is actually requested: a root that only feeds functions outside
+    # the selected outputs, or that is cut off by a supplied intermediate array
+    prod = {o: f for f in case["funcs"] for o in f["outs"]}
+
+    def needed_roots(targets, cut=()):
+        seen, need, stack = set(), set(), list(targets)
+        while stack:
+            n = stack.pop()
+            if n in seen or n in cut:
+                continue
+            seen.add(n)
+            if n in prod:
+                stack.extend(prod[n]["params"])
+            else:
+                need.add(n)
+        return need
+    all_outs = [o for f in case["funcs"] for o in f["outs"]]
+    for o in all_outs:
+        if len(prod[o]["outs"]) == 1 and needed_roots([o]) < set(roots):
+            yield "added-input", f"root-outside-output_names={o}", dict(inputs), {"output_names": {o}}
+            break
+    env = None
+    for y in all_outs:
+        if len(prod[y]["outs"]) == 1 and any(y in g["params"] for g in case["funcs"]):
+            rest = [o for o in all_outs if o != y]
+            if needed_roots(rest, cut={y}) < set(roots):
+                env = env or mapgen.oracle(case, inputs)[0]
+                yield "added-input", f"root-cut-off-by-supplied-{y}", {**inputs, y: env[y]}, {"auto_subpipeline": True}
+                break
     for f in case["funcs"]:
         if f["mapspec"] is None:
             continue
@@ -277,8 +336,17 @@ def run_map_batch(v, desc, scratch):
             attempt(op, label, case, minputs, {}, mkw)
         # the same run-time faults against a folder that does not exist yet / is empty (cleanup=False): a rejected
         # request must not create or fill it
-        for op, label, minputs, mkw in input_faults(case, inputs, rng):
+        fresh = [(op, label, case, minputs, {}, mkw) for op, label, minputs, mkw in input_faults(case, inputs, rng)]
+        # construction faults as well: "rejected" by the comparison with the run stored in the folder would hide a
+        # pipeline that was wrongly ACCEPTED at construction - against a folder without a previous run nothing hides it
+        fresh += [(op, label, mcase, mapgen.make_inputs(mcase) if set(mcase["roots"]) != set(case["roots"]) else inputs, bkw, {})
+                  for op, label, mcase, bkw in construct_faults(case, random.Random(f"c12f:{desc['seed']}:{i}"))]
+        for op, label, fcase, minputs, bkw, mkw in fresh:
             for kind in ("absent", "empty"):
+                if bkw or fcase is not case:
+                    if kind == "empty":
+                        continue
+                    v.count("fresh_folder_construction_faults")
                 f2 = os.path.join(scratch, f"fresh-{i}-{kind}")
                 shutil.rmtree(f2, ignore_errors=True)
                 if kind == "empty":
@@ -289,8 +357,12 @@ def run_map_batch(v, desc, scratch):
                 err = None
                 try:
                     with quiet():
-                        p = mapgen.build_pipeline(case, log=log)
-                        kw = dict(run_folder=f2, internal_shapes=mapgen.internal_shapes_arg(case), parallel=False, storage="file_array", cleanup=False)
+                        bkw2 = dict(bkw)
+                        post = bkw2.pop("_post", None)
+                        p = mapgen.build_pipeline(fcase, log=log, **bkw2)
+                        if post is not None:
+                            p[post[0]].update_defaults(post[1])
+                        kw = dict(run_folder=f2, internal_shapes=mapgen.internal_shapes_arg(fcase), parallel=False, storage="file_array", cleanup=False)
                         kw.update(mkw)
                         if kw.get("executor") == "THREAD":
                             ex = kw["executor"] = ThreadPoolExecutor(1)
@@ -305,7 +377,7 @@ def run_map_batch(v, desc, scratch):
                 after = fsmon.snapshot(f2)
                 v.count("snapshot_comparisons")
                 v.count("fresh_folder_faults")
-                w = dict(case=mapgen.describe(case), operator=op, position=label, folder=kind)
+                w = dict(case=mapgen.describe(fcase), operator=op, position=label, folder=kind)
                 if err is None:
                     v.bad(f"accepted:{op}", f"ill-formed request ({op} at {label}) was accepted", **w)
                 if calls:
@@ -396,7 +468,7 @@ def run_case(desc):
 
 
 OPS = ["duplicate-output", "output-named-like-own-parameter", "cycle", "inconsistent-defaults", "inconsistent-defaults-after-member-update", "mapspec-names-non-parameter",
-       "mapspec-names-wrong-output", "axis-name-swap-in-consumer", "rank-change-in-consumer", "dropped-input", "added-input",
+       "mapspec-names-wrong-output", "axis-name-swap-in-consumer", "axis-name-conflict-beside-reduction", "rank-change-in-consumer", "dropped-input", "added-input",
        "resized-zipped-axis", "changed-input-rank", "scalar-for-mapped-input", "unknown-storage", "executor-with-parallel-false",
        "dropped-keyword", "added-keyword"]
 
